@@ -5,303 +5,16 @@ import (
 	"context"
 	"fmt"
 	"math/rand"
-	"regexp"
-	"strings"
 	"sync"
 	"sync/atomic"
 	"testing"
-	"testing/synctest"
 	"time"
 
-	"github.com/godaddy/asherah/go/appencryption"
-	"github.com/godaddy/asherah/go/appencryption/pkg/log"
 
 	"verif/harness/ev"
-	"verif/harness/probe"
+	"verif/harness/sessprog"
 	"verif/harness/world"
 )
-
-var tap = &probe.LogTap{}
-
-func init() { log.SetLogger(tap) }
-
-var newSessionRe = regexp.MustCompile(`\[newSession\] for id (.*)\. Session\((0x[0-9a-f]+)\)\{Encryption\((0x[0-9a-f]+)\)\}`)
-
-// teardown monitor shared by the enumerated programs and the stress run. Sessions are identified by an
-// incarnation number assigned when the SDK logs their creation: addresses are reused once an object is garbage.
-type tdMon struct {
-	mu      sync.Mutex
-	next    int
-	sessInc map[string]int // session pointer -> current incarnation
-	encInc  map[string]int // encryption pointer -> current incarnation
-	closes  map[int]int    // incarnation -> env.close count
-	holders map[int]int    // incarnation -> open handles (maintained by the harness)
-	early   []string       // teardowns that happened while holders remained
-	removes int
-}
-
-func newTdMon() *tdMon {
-	return &tdMon{sessInc: map[string]int{}, encInc: map[string]int{}, closes: map[int]int{}, holders: map[int]int{}}
-}
-
-func (m *tdMon) install() {
-	tap.SetKeep(false)
-	tap.SetScan(func(line string) {
-		if g := newSessionRe.FindStringSubmatch(line); g != nil {
-			m.mu.Lock()
-			m.next++
-			m.sessInc[g[2]] = m.next
-			m.encInc[g[3]] = m.next
-			m.mu.Unlock()
-		}
-	})
-	probe.SetHookSink(func(point string, arg any) {
-		switch point {
-		case "env.close":
-			p, _ := arg.(string)
-			m.mu.Lock()
-			if inc, ok := m.encInc[p]; ok {
-				m.closes[inc]++
-				if m.holders[inc] > 0 {
-					m.early = append(m.early, fmt.Sprintf("session incarnation #%d (encryption %s) closed while %d holder(s) remain", inc, p, m.holders[inc]))
-				}
-			}
-			m.mu.Unlock()
-		case "shared.remove.closing.locked":
-			m.mu.Lock()
-			m.removes++
-			m.mu.Unlock()
-		}
-	})
-}
-
-func (m *tdMon) uninstall() {
-	probe.SetHookSink(nil)
-	tap.SetScan(nil)
-}
-
-// hold adjusts the holder count of the live session s and returns its incarnation.
-func (m *tdMon) hold(s *appencryption.Session, d int) int {
-	p := fmt.Sprintf("%p", s)
-	m.mu.Lock()
-	defer m.mu.Unlock()
-	inc := m.sessInc[p]
-	m.holders[inc] += d
-	return inc
-}
-
-type pop struct {
-	Kind byte // G get, U use, C close, A advance, F factory close
-	Arg  int
-}
-
-func (o pop) String() string {
-	if o.Kind == 'A' || o.Kind == 'F' {
-		return string(o.Kind)
-	}
-	return fmt.Sprintf("%c%d", o.Kind, o.Arg)
-}
-
-func progString(p []pop) string {
-	s := make([]string, len(p))
-	for i, o := range p {
-		s[i] = o.String()
-	}
-	return strings.Join(s, " ")
-}
-
-type handle struct {
-	s      *appencryption.Session
-	part   string
-	closed bool
-}
-
-// runProgram executes one program against a fresh factory with the given session-cache shape (inside a bubble).
-func runProgram(w *world.World, policy string, size int, prog []pop, dur time.Duration) (sig, detail string, stats [3]int) {
-	cfg := world.Default(100*time.Hour, 50*time.Hour, time.Minute)
-	cfg.SessCache, cfg.SessCap, cfg.SessPolicy, cfg.SessDur = true, size, policy, dur
-	mon := newTdMon()
-	mon.install()
-	defer mon.uninstall()
-	fail := func(s, f string, a ...any) {
-		if sig == "" {
-			sig, detail = s, fmt.Sprintf("session cache %s/size=%d program [%s]: ", policy, size, progString(prog))+fmt.Sprintf(f, a...)
-		}
-	}
-	f := w.Factory(cfg, "svc", "prod")
-	ctx := context.Background()
-	var hs []*handle
-	open := func() []*handle {
-		var o []*handle
-		for _, h := range hs {
-			if !h.closed {
-				o = append(o, h)
-			}
-		}
-		return o
-	}
-	distinct := map[int]bool{}
-	factoryClosed := false
-	lastGet := map[string]*appencryption.Session{}
-	lastOpWasGetOf := ""
-	use := func(h *handle) {
-		pl := []byte("payload for " + h.part)
-		d, err := h.s.Encrypt(ctx, pl)
-		if err != nil {
-			fail("c16-held-session-unusable", "encrypt on a held, unclosed session for %q failed: %v", h.part, err)
-			return
-		}
-		out, err := h.s.Decrypt(ctx, *d)
-		if err != nil || !bytes.Equal(out, pl) {
-			fail("c16-held-session-unusable", "decrypt on a held, unclosed session for %q failed: %v", h.part, err)
-		}
-		stats[1]++
-	}
-	for _, o := range prog {
-		switch o.Kind {
-		case 'G':
-			if factoryClosed {
-				continue
-			}
-			part := fmt.Sprintf("part%d", o.Arg)
-			s, err := f.GetSession(part)
-			if err != nil {
-				fail("c16-getsession-failed", "GetSession(%q): %v", part, err)
-				continue
-			}
-			inc := mon.hold(s, +1)
-			if lastOpWasGetOf == part && lastGet[part] != s {
-				fail("c16-cached-session-not-shared", "two consecutive GetSession(%q) calls returned different sessions (%p, %p)", part, lastGet[part], s)
-			}
-			lastGet[part] = s
-			lastOpWasGetOf = part
-			distinct[inc] = true
-			hs = append(hs, &handle{s: s, part: part})
-			stats[0]++
-			continue
-		case 'U':
-			op := open()
-			if len(op) == 0 || factoryClosed {
-				break
-			}
-			h := op[0]
-			if o.Arg == 1 {
-				h = op[len(op)-1]
-			}
-			use(h)
-		case 'C':
-			op := open()
-			if len(op) == 0 {
-				break
-			}
-			h := op[0]
-			if o.Arg == 1 {
-				h = op[len(op)-1]
-			}
-			h.closed = true
-			mon.hold(h.s, -1)
-			if err := h.s.Close(); err != nil {
-				fail("c16-close-error", "Close returned %v", err)
-			}
-		case 'A':
-			time.Sleep(dur + time.Second)
-		case 'F':
-			if !factoryClosed {
-				factoryClosed = true
-				f.Close()
-			}
-		}
-		lastOpWasGetOf = ""
-		synctest.Wait()
-		// every still-held session keeps working whatever was evicted or expired meanwhile
-		if !factoryClosed {
-			for _, h := range open() {
-				use(h)
-			}
-		}
-	}
-	for _, h := range open() {
-		h.closed = true
-		mon.hold(h.s, -1)
-		h.s.Close()
-	}
-	if !factoryClosed {
-		f.Close()
-	}
-	synctest.Wait()
-	mon.mu.Lock()
-	defer mon.mu.Unlock()
-	for _, e := range mon.early {
-		fail("c16-teardown-while-held", "%s", e)
-	}
-	for inc := range distinct {
-		if inc == 0 {
-			fail("c16-monitor-lost-session", "no [newSession] debug line seen for a session that was handed out")
-			continue
-		}
-		if n := mon.closes[inc]; n != 1 {
-			fail("c16-teardown-count", "after every holder and the factory closed, session incarnation #%d was torn down %d time(s), want exactly 1", inc, n)
-		}
-	}
-	for inc, n := range mon.closes {
-		if n > 1 {
-			fail("c16-teardown-count", "session incarnation #%d was closed %d times", inc, n)
-		}
-	}
-	stats[2] = len(distinct)
-	return
-}
-
-func enumeratePrograms(n int, f func([]pop)) {
-	alphabet := []pop{{'G', 0}, {'G', 1}, {'G', 2}, {'U', 0}, {'U', 1}, {'C', 0}, {'C', 1}, {'A', 0}, {'F', 0}}
-	seq := make([]pop, n)
-	var rec func(pos, usedParts, openH int, closedF bool)
-	rec = func(pos, usedParts, openH int, closedF bool) {
-		if pos == n {
-			f(seq)
-			return
-		}
-		for _, o := range alphabet {
-			switch o.Kind {
-			case 'G':
-				if o.Arg > usedParts || closedF { // partitions are introduced in order
-					continue
-				}
-				np := usedParts
-				if o.Arg == usedParts {
-					np++
-				}
-				seq[pos] = o
-				rec(pos+1, np, openH+1, closedF)
-			case 'U':
-				if openH == 0 || closedF || (o.Arg == 1 && openH < 2) {
-					continue
-				}
-				seq[pos] = o
-				rec(pos+1, usedParts, openH, closedF)
-			case 'C':
-				if openH == 0 || (o.Arg == 1 && openH < 2) {
-					continue
-				}
-				seq[pos] = o
-				rec(pos+1, usedParts, openH-1, closedF)
-			case 'A':
-				if closedF || pos == 0 {
-					continue
-				}
-				seq[pos] = o
-				rec(pos+1, usedParts, openH, closedF)
-			case 'F':
-				if closedF || pos == 0 {
-					continue
-				}
-				seq[pos] = o
-				rec(pos+1, usedParts, openH, true)
-			}
-		}
-	}
-	rec(0, 0, 0, false)
-}
 
 func TestC16(t *testing.T) {
 	r := ev.Start("C16", "exploration")
@@ -318,24 +31,24 @@ func TestC16(t *testing.T) {
 				defer w.Close()
 				time.Sleep(13 * time.Second)
 				n := 0
-				enumeratePrograms(L, func(prog []pop) {
+				sessprog.EnumeratePrograms(L, func(prog []sessprog.Op) {
 					if failed > 20 {
 						return
 					}
 					n++
-					sig, detail, st := runProgram(w, pol, size, prog, time.Hour)
+					sig, detail, st := sessprog.RunProgram(w, pol, size, prog, time.Hour)
 					r.Eval(1)
 					r.Count("handles_handed_out", int64(st[0]))
 					r.Count("round_trips_on_held_handles", int64(st[1]))
 					if st[2] >= 2 {
-						r.Distinct(fmt.Sprintf("%s|%d|%s", pol, size, progString(prog)))
+						r.Distinct(fmt.Sprintf("%s|%d|%s", pol, size, sessprog.ProgString(prog)))
 						if r.WantSample() && n%97 == 0 {
-							r.Sample(map[string]any{"policy": pol, "size": size, "program": progString(prog), "distinct_sessions": st[2]})
+							r.Sample(map[string]any{"policy": pol, "size": size, "program": sessprog.ProgString(prog), "distinct_sessions": st[2]})
 						}
 					}
 					if sig != "" {
 						failed++
-						r.Violation(sig, detail, map[string]any{"engine": "conc/c16", "policy": pol, "size": size, "program": progString(prog)})
+						r.Violation(sig, detail, map[string]any{"engine": "conc/c16", "policy": pol, "size": size, "program": sessprog.ProgString(prog)})
 					}
 				})
 				r.Count(fmt.Sprintf("programs:%s/%d", pol, size), int64(n))
@@ -362,8 +75,8 @@ func stressC16(t *testing.T, r *ev.Run) {
 		w.Led.NoHash = true
 		cfg := world.Default(time.Hour, time.Hour, time.Minute)
 		cfg.SessCache, cfg.SessCap, cfg.SessPolicy, cfg.SessDur = true, 2, pol, time.Duration(1+rep%2)*time.Millisecond
-		mon := newTdMon()
-		mon.install()
+		mon := sessprog.NewTdMon()
+		mon.Install()
 		f := w.Factory(cfg, "svc", "prod")
 		ctx := context.Background()
 		var wg sync.WaitGroup
@@ -385,7 +98,7 @@ func stressC16(t *testing.T, r *ev.Run) {
 						firstErr.CompareAndSwap(nil, "GetSession: "+err.Error())
 						continue
 					}
-					handed.Store(mon.hold(s, +1), true)
+					handed.Store(mon.Hold(s, +1), true)
 					for k := 0; k < 1+rng.Intn(3); k++ {
 						pl := []byte(fmt.Sprintf("p-%d-%d-%d", g, i, k))
 						d, err := s.Encrypt(ctx, pl)
@@ -404,7 +117,7 @@ func stressC16(t *testing.T, r *ev.Run) {
 							time.Sleep(time.Duration(rng.Intn(1500)) * time.Microsecond)
 						}
 					}
-					mon.hold(s, -1)
+					mon.Hold(s, -1)
 					s.Close()
 				}
 			}()
@@ -416,31 +129,31 @@ func stressC16(t *testing.T, r *ev.Run) {
 		handed.Range(func(_, _ any) bool { nHanded++; return true })
 		deadline := time.Now().Add(20 * time.Second)
 		for time.Now().Before(deadline) {
-			mon.mu.Lock()
-			done := len(mon.closes) >= nHanded
-			mon.mu.Unlock()
+			mon.Mu.Lock()
+			done := len(mon.Closes) >= nHanded
+			mon.Mu.Unlock()
 			if done {
 				break
 			}
 			time.Sleep(5 * time.Millisecond)
 		}
-		mon.uninstall()
-		mon.mu.Lock()
+		mon.Uninstall()
+		mon.Mu.Lock()
 		r.Eval(1)
 		r.Count("stress_ops", int64(opsN))
 		r.Count("stress_sessions_handed_out", int64(nHanded))
-		r.Count("stress_teardowns", int64(len(mon.closes)))
+		r.Count("stress_teardowns", int64(len(mon.Closes)))
 		if n := failures.Load(); n > 0 {
 			fe, _ := firstErr.Load().(string)
 			r.Violation("c16-stress-held-session-unusable", fmt.Sprintf("stress (policy %q, seed %d): %d operation(s) on held sessions failed; first: %s", pol, seed, n, fe), nil)
 		}
-		for _, e := range mon.early {
+		for _, e := range mon.Early {
 			r.Violation("c16-teardown-while-held", fmt.Sprintf("stress (policy %q, seed %d): %s", pol, seed, e), nil)
 			break
 		}
 		twice, never := 0, 0
 		handed.Range(func(k, _ any) bool {
-			switch n := mon.closes[k.(int)]; {
+			switch n := mon.Closes[k.(int)]; {
 			case n > 1:
 				twice++
 			case n == 0:
@@ -454,7 +167,7 @@ func stressC16(t *testing.T, r *ev.Run) {
 		if never > 0 {
 			r.Inconclusive(fmt.Sprintf("stress (policy %q): %d of %d sessions not torn down 20 s after factory close", pol, never, nHanded))
 		}
-		mon.mu.Unlock()
+		mon.Mu.Unlock()
 		w.Close()
 	}
 }
